@@ -10,9 +10,9 @@ import (
 	"github.com/mandykoh/prism/zzverif/rd"
 )
 
-var verifC18Payloads = 3
+var verifC18Payloads = 4
 
-var verifPayloadSizes = []int{0, 4096, 70000, 1, 300000}
+var verifPayloadSizes = []int{0, 4096, 70000, 300000, 1}
 
 // verifC18Case builds a well-formed file of the chosen family and returns the
 // header part, the specific loader and the offset just past the last structure the
@@ -27,8 +27,40 @@ func verifC18Case(p int) (head []byte, load func(io.Reader) (*meta.Data, io.Read
 	return
 }
 
+// verifBigProfile: length of the large embedded profiles (above the 64 KiB allowance,
+// so that a loader reading the profile with over-sized requests oversteps it).
+const verifBigProfile = 140000
+
 func verifC18Family(p int) (head []byte, load func(io.Reader) (*meta.Data, io.Reader, error), needed int) {
-	switch verifChoice(6) {
+	switch verifChoice(8) {
+	case 6: // WebP VP8X with a large ICC profile (concrete content, symbolic canvas bytes)
+		in := []byte("RIFF")
+		in = append(in, verifBytes(4)...)
+		in = append(in, "WEBPVP8X"...)
+		in = append(in, 10, 0, 0, 0, 0x20, 0, 0, 0)
+		in = append(in, verifBytes(6)...)
+		in = append(in, "ICCP"...)
+		in = append(in, byte(verifBigProfile&0xff), byte((verifBigProfile>>8)&0xff), byte(verifBigProfile>>16), 0)
+		in = append(in, make([]byte, verifBigProfile)...)
+		end := len(in)
+		in = append(in, "VP8 "...)
+		in = append(in, verifBytes(8)...)
+		return in, webpmeta.Load, end
+	case 7: // PNG with a large compressed profile
+		in := append([]byte{}, pngmeta.VerifSig...)
+		in = append(in, 0, 0, 0, 13, 'I', 'H', 'D', 'R')
+		in = append(in, verifBytes(13)...)
+		in = append(in, verifBytes(4)...)
+		l := verifBigProfile + 3
+		in = append(in, byte(l>>24), byte(l>>16), byte(l>>8), byte(l))
+		in = append(in, "iCCP"...)
+		in = append(in, 'a', 0, 0)
+		in = append(in, make([]byte, verifBigProfile)...)
+		in = append(in, verifBytes(4)...)
+		end := len(in)
+		in = append(in, 0, 0, 0, 3, 'I', 'D', 'A', 'T')
+		in = append(in, verifBytes(7)...)
+		return in, pngmeta.Load, end
 	case 0: // PNG without profile: needs everything up to the IDAT chunk type
 		in, _ := pngmeta.VerifBuildPNG(verifChoice(2))
 		return in, pngmeta.Load, len(in) - 7
